@@ -96,7 +96,22 @@ func (g *G) standardSetup(nClasses, nProjects, nBatches, nBaskets int) world {
 		if g.R.Chance(1, 2) {
 			dc = chain.MinStartDate(date(2000, 1, 1))
 		}
-		g.Do(g.App.MsgBasketCreate(g.user(), basketNames[i], "setup basket", "C", w.classes, g.R.Bool(), dc, g.basketFee(g.V())), "setup: basket")
+		res := g.Do(g.App.MsgBasketCreate(g.user(), basketNames[i], "setup basket", "C", w.classes, g.R.Bool(), dc, g.basketFee(g.V())), "setup: basket")
+		// deposits from up to three batches with distinct start dates, so that takes span batches
+		if bd := respField(res, "basket_denom"); bd != "" {
+			v := g.V()
+			seen := map[int64]bool{}
+			n := 0
+			for _, d := range w.batches {
+				bt, bk := v.BatchByDen[d], v.BasketByDenom[bd]
+				if bt == nil || bk == nil || bt.Start == nil || seen[bt.Start.S] || n >= 3 || !monitor.PutAdmissible(v, bk, bt) {
+					continue
+				}
+				seen[bt.Start.S] = true
+				n++
+				g.Do(g.App.MsgBasketPut(n%NumUsers, bd, chain.BasketCredit(d, fmt.Sprint(5+g.R.Intn(40)))), "setup: deposit")
+			}
+		}
 	}
 	g.Commit()
 	return w
@@ -104,7 +119,7 @@ func (g *G) standardSetup(nClasses, nProjects, nBatches, nBaskets int) world {
 
 func runMix(c Cfg) *Result {
 	g := NewG(c, chain.Options{GenesisTime: T0})
-	g.standardSetup(1+g.R.Intn(2), 1+g.R.Intn(2), 1+g.R.Intn(2), 1+g.R.Intn(2))
+	g.standardSetup(1+g.R.Intn(2), 1+g.R.Intn(2), 2, 1+g.R.Intn(2))
 	g.blocks(5+g.R.Intn(8), 2, 7, mixOps)
 	return g.Finish()
 }
